@@ -104,6 +104,14 @@ def read_literals(repo):
     if not na:
         raise SourceShapeError('Na not found')
     out['Na'] = na
+    # every other module-level numeric constant (e, ...): name -> literals
+    out['module'] = {}
+    for n in tree.body:
+        if isinstance(n, ast.Assign) and len(n.targets) == 1 and isinstance(n.targets[0], ast.Name) \
+                and not isinstance(n.value, ast.Dict):
+            ls = _literals(src, n.value)
+            if ls:
+                out['module'][n.targets[0].id] = ls
     for fn in ('m_e', 'm_p', 'P0', 'T0'):
         lits = None
         for n in ast.walk(fns[fn]):
